@@ -263,12 +263,10 @@ Definition mk_const (l : arith_logic) (name : str) : mk_result :=
   end.
 
 (* ---- exact values (the specification side) ------------------------------------------------------ *)
-Definition N_to_Q (n : N) : Q := inject_Z (Z.of_N n).
-Definition pow10 (k : nat) : positive := Pos.pow 10 (Pos.of_succ_nat k).   (* 10^(k+1) *)
-(* value of  ip "." fp  *)
-Definition dec_value (ip fp : str) : Q :=
-  match fp with
-  | [] => N_to_Q (digits_val ip)
-  | _ :: fp' => Qmake (Z.of_N (digits_val (ip ++ fp))) (pow10 (length fp'))
-  end.
+Definition pow10Q (k : nat) : Q := inject_Z (Z.of_N (10 ^ N.of_nat k)).
+(* value of the digit strings  ip "." fp  (fp = [] : no fractional part) *)
+Definition dec_value (ip fp : str) : Q := (inject_Z (Z.of_N (digits_val (ip ++ fp))) / pow10Q (length fp))%Q.
+(* value of  n "/" d *)
+Definition frac_value (n d : str) : Q := (inject_Z (Z.of_N (digits_val n)) / inject_Z (Z.of_N (digits_val d)))%Q.
 Definition signed (neg : bool) (q : Q) : Q := if neg then (- q)%Q else q.
+Definition sign_str (neg : bool) : str := if neg then [ch 45] else [].
